@@ -266,6 +266,13 @@ def run_history(hist, queries=False):
             return state2, ["step %d %s: library %s, model %s (%s)" % (n, op, got, want, reason)], labels, nq
         if want == "ValueError" and before != after:
             return state2, ["step %d %s: refused add (%s) changed the container contents" % (n, op, reason)], labels, nq
+        if want == "ValueError" and op[0] not in ("reload",):
+            # the very same add again, right away: the refusal must not depend on the call having been seen before
+            r = call(target.add, cand)
+            if r[0] == "ok" or r[1] != want or observe(ci) != before:
+                return state2, ["step %d %s: refused (%s), but the same add repeated at once %s" % (
+                    n, op, reason, "is accepted" if r[0] == "ok" else "raises %s" % r[1] if r[1] != want else
+                    "changes the forest")], labels, nq
         nodes = m_nodes(state2)
         exp = {pos: CANDS[name] for pos, (name, orig) in nodes.items()}
         got_struct = {pos: v[:4] for pos, v in after.items()}
